@@ -74,8 +74,12 @@ def check_roundtrip(eng, res, L, tree, data, sigs, *, key, model=True, extra=Non
     if impl.contains_nan(want[1]):
         res.feat("skipped:NaN")
         return None
-    if extra is not None and not extra(obj):
-        return None
+    if extra is not None:
+        r = extra(obj)
+        if r is False:
+            return None
+        if isinstance(r, list):      # finding signatures that depend on the input
+            sigs = sigs + r
     nontrivial = (len(tree[1]) >= 2 or tree[1][0]["ty"][0] in ("arr", "struct", "union")) and want[2] >= 2
     res.count((*key, data[: want[2]]), nontrivial)
     cd = eng.case_data(L, data=data)
@@ -200,16 +204,19 @@ def mixed_alignment(eng, res, rnd, tier):
         res.feat("mixed-align:" + ("aligned-in-packed at a misaligned or dynamic offset" if mis else "every aligned structure at an aligned offset"))
         top_align = plan[-1][2]
         sigs = s1_mixed.sigs_mixed(tree2, top_align, ptr, endian)
-        if mis:
-            # a structure defined with align=True at a position that is not a multiple of its alignment: reader and writer align its
-            # tail (and the writer its bit-field units / union members) by the ABSOLUTE stream position, past the declared end, and then
-            # disagree about where the next member is. Found by this probe; known finding F43 (classified, not skipped).
+        if any(under_union or s1_mixed.has_bitfields(t) for t, under_union in mis):
+            # a structure defined with align=True at a position that is not a multiple of its alignment: the writer pads before its
+            # bit-field units / union members by the ABSOLUTE stream position, the reader does not. Found by this probe; known finding
+            # F43 (classified by this signature, not skipped). Without bit-fields / unions the clean tree fails only on inputs where the
+            # tail alignment runs past the declared size: see `overshoot_sig` below - everything else is checked strictly.
             sigs = sigs + ["F43"]
         L.ty_sexp = lambda tree2=tree2, T=T, top_align=top_align: s1_mixed.mixed_ty_sexp(tree2, T, top_align)  # per-node align flags
 
         def no_overshoot(obj):
             if s1_mixed.overshoot(obj):
+                # reader and writer align the misplaced structure's tail by the absolute stream position, past its declared end (F43)
                 res.feat("mixed-align:input on which an aligned structure's tail alignment runs past its declared size (F43 territory)")
+                return ["F43"]
             return True
 
         size = T.size if T.size is not None else 48
